@@ -9,8 +9,10 @@ thread_local!
 
 pub struct ServerPlan
 {
-    pub requests : Vec<(String, String)>,            // (method, path)
+    pub requests : Vec<(String, String)>,            // (method, path); method "OP" = let the harness change the directory now
     pub responses : Vec<(u16, Vec<u8>)>,
+    /* called for every "OP" pseudo-request, while the server instance stays up */
+    pub hook : Option<Box<dyn FnMut()>>,
 }
 
 pub fn server_in_memory() -> bool
@@ -18,9 +20,9 @@ pub fn server_in_memory() -> bool
     SERVER_PLAN.with(|p| p.borrow().is_some())
 }
 
-pub fn set_plan(requests : Vec<(String, String)>)
+pub fn set_plan(requests : Vec<(String, String)>, hook : Option<Box<dyn FnMut()>>)
 {
-    SERVER_PLAN.with(|p| *p.borrow_mut() = Some(ServerPlan{ requests : requests, responses : vec![] }));
+    SERVER_PLAN.with(|p| *p.borrow_mut() = Some(ServerPlan{ requests : requests, responses : vec![], hook : hook }));
 }
 
 pub fn take_plan() -> Option<ServerPlan>
@@ -34,9 +36,17 @@ where
     F::Extract : warp::Reply + Send,
 {
     let requests : Vec<(String, String)> = SERVER_PLAN.with(|p| p.borrow().as_ref().map(|pl| pl.requests.clone()).unwrap_or(vec![]));
+    let mut hook = SERVER_PLAN.with(|p| p.borrow_mut().as_mut().and_then(|pl| pl.hook.take()));
     let mut responses = vec![];
     for (method, path) in requests
     {
+        if method == "OP"
+        {
+            // a build or clean runs against the same ruler directory while this server stays up
+            if let Some(h) = hook.as_mut() { h(); }
+            responses.push((0, vec![]));
+            continue;
+        }
         let resp = warp::test::request().method(&method).path(&path).reply(&filter).await;
         responses.push((resp.status().as_u16(), resp.body().to_vec()));
     }
